@@ -39,6 +39,8 @@ Clauses(S, o) ==
      <<"handshake", SumSeq(Seconds(o.indeg)) = SumSeq(o.heads) /\ SumSeq(Seconds(o.outdeg)) = SumSeq(o.tails)>> >>
 
 Verdict(r) ==
+  \* a public view that disagrees with the tables it is a view of (members, memberships, ids, counts)
+  IF r.viewanom # <<>> THEN <<"C06:" \o r.viewanom[1]>> ELSE
   IF r.postanom # <<>> THEN <<"tainted">> ELSE
   LET S == FromJ(r.post) IN
   IF ~DiIntegrity(S) THEN <<"tainted">>
